@@ -39,7 +39,13 @@ def keys_for(env):
     the NEXT entry (the strings lie back to back in memory); a name + NUL"""
     ks = KEYS + ODD_KEYS
     for k, e in enumerate(env[:3]):
-        for cand in ([e] + ([e + [0] + name_or_all(env[k + 1])] if k + 1 < len(env) else []) + [name_or_all(e) + [0]]):
+        cands = [e] + ([e + [0] + name_or_all(env[k + 1])] if k + 1 < len(env) else []) + [name_or_all(e) + [0]]
+        # an entry whose VALUE contains '=' (A=B=c): the keys "A=B", "A=B=" and "=B" - each is the text in front of some
+        # '=' of the entry (or behind one), none is its name
+        eqs = [i for i, b in enumerate(e) if b == 61]
+        for j, pos in enumerate(eqs[1:], 1):
+            cands += [e[:pos], e[:pos + 1], e[eqs[j - 1]:pos]]
+        for cand in cands:
             if cand not in ks and len(cand) < 500:
                 ks = ks + [cand]
     return ks
@@ -90,7 +96,8 @@ def model_check(chk, tier):
     if tier != "quick":
         # anti-vacuity: the algorithm as found in the pinned tree must be rejected by the same invariants
         for cfg, inv in (("Startup_lookup2_pinned.cfg", {"LookupCorrect"}), ("Startup_lookup2_fixed1.cfg", {"LookupCorrect"}),
-                         ("Startup_lookup2_noterm.cfg", {"ReadsInBounds", "LookupCorrect"})):
+                         ("Startup_lookup2_noterm.cfg", {"ReadsInBounds", "LookupCorrect"}),
+                         ("Startup_lookup2_lasteq.cfg", {"LookupCorrect"})):
             res = core.run_tlc("Startup_MC.tla", cfg, workers=8, timeout=3000, xmx="6g")
             info.append({"cfg": cfg, "expected_counterexample_found": bool(inv & set(res.invariant_violated)), "violated": res.invariant_violated})
             if not inv & set(res.invariant_violated):
@@ -176,7 +183,9 @@ def write_cases(path, binary, cases, stack_every=0):
             payload = "".join(hx(k) + "\n" for k in c["keys"]) + "".join(
                 "it %s %s\n" % (v, ",".join("%s%s" % (o, k if o in "htp" else "") for o, k in s)) for v, s in c.get("scripts", []))
             f.write("in %s\n" % (payload.encode().hex() or "-"))
-            if c.get("ids"):
+            if c.get("ids") and len(c["ids"]) == 4:
+                f.write("ids4 %d %d %d %d\n" % tuple(c["ids"]))
+            elif c.get("ids"):
                 f.write("ids %d %d\n" % tuple(c["ids"]))
             f.write("wait clock real\n")
             if stack_every and i % stack_every == 1:
@@ -1096,7 +1105,9 @@ def run(tier):
     chk.extra["runs_under_other_ids"] = use_ids
     # every third run under other real ids than root's 0/0 (a uid/gid mix-up is invisible for 0/0)
     cases = lead_cases + [{"argv": argvs[i % len(argvs)], "env": v["env"], "keys": keys_for(v["env"]),
-                           "ids": (1000 + i % 7, 2000 + i % 5) if (i % 3 == 0 and use_ids) else None}
+                           "ids": ((1000 + i % 7, 1100 + i % 3, 2000 + i % 5, 2100 + i % 2) if i % 6 == 0      # real != effective: AT_UID,
+                                   else (1000 + i % 7, 2000 + i % 5))                              # AT_EUID, AT_GID, AT_EGID pairwise distinct
+                           if (i % 3 == 0 and use_ids) else None}
                           for i, v in enumerate(envs)]
     cases += [dict(c, ids=None) for c in extra_cases]
     # the Iterator surface of args_os() / args(): every generated script on a 5-argument vector, on a vector with a
